@@ -40,7 +40,10 @@ def cases(tier, r):
     args, kwargs = argstore.gen_init(r, sig, fresh, allow_tv=True)
     ops = argstore.gen_tag_ops(r, sig, fresh, r.randint(1, 14 if tier == 'quick' else 30))
     ann = argstore.gen_ann(r, sig) if r.random() < 0.3 else []     # Annotated[...] tags: logged by the constructor
-    yield 'random', {'p': 'argstore', 'sig': sig, 'args': args, 'kwargs': kwargs, 'ops': ops, 'ann': ann}
+    case = {'p': 'argstore', 'sig': sig, 'args': args, 'kwargs': kwargs, 'ops': ops, 'ann': ann}
+    if r.random() < 0.1:
+      case['init_suspended'] = True       # constructed inside `with suspend_tracking():`
+    yield 'random', case
 
 
   # stage C: direct edits made from frames with arbitrary file names (code compiled from a
@@ -154,6 +157,7 @@ def execute(case):
       real['eq_without_history'] = f'raised {type(e).__name__}'
     real['build_without_history'] = argstore.real_build(twin)
   req = {k: case.get(k, []) for k in ('p', 'sig', 'args', 'kwargs', 'ops', 'ann')}
+  req['init_suspended'] = bool(case.get('init_suspended'))
   return real, req
 
 
@@ -210,9 +214,12 @@ def oracle(case, real):
   for i, s in enumerate(real['steps']):
     if s.get('orig_same') is False:
       return {'where': f'step{i}', 'what': 'copy_with modified the original configuration'}
+  if case.get('init_suspended') and real['init']['hist']:
+    return {'where': 'init', 'what': 'entries added (a sequence number drawn) while tracking is suspended: '
+            'the Buildable was constructed inside suspend_tracking()', 'entries': real['init']['hist']}
   states = [('init', None, real['init'])] + [
       (f'step{i}', case['ops'][i], s['state']) for i, s in enumerate(real['steps'])]
-  suspended_ever = False
+  suspended_ever = bool(case.get('init_suspended'))
   tracking = True
   saved = []
   prev = None
